@@ -65,6 +65,10 @@ def dk(k):
             return np.int8(int(v))
         if tag == "enum":
             return K(int(v))
+        if tag == "strsub":
+            return StrSub(v)
+        if tag == "intsub":
+            return IntSub(int(v))
         if tag == "f":
             return float(v)
         if tag == "tup":
@@ -77,7 +81,19 @@ def dk(k):
     return k
 
 
+class StrSub(str):
+    """a str subclass without a repr of its own: equal to, hashing like and printing like the plain string"""
+
+
+class IntSub(int):
+    pass
+
+
 def ek(k):
+    if type(k) is StrSub:
+        return str.__str__(k)
+    if type(k) is IntSub:
+        return int(k)
     if isinstance(k, bool):
         return "\x01bool:%d" % k
     if isinstance(k, K):
@@ -175,6 +191,10 @@ class Num:
 
 def dv(v):
     """values: ints travel as they are, other types in a tagged string encoding"""
+    if v == "FunSum":
+        return fsum
+    if v == "FunSum2":
+        return fsum2
     if isinstance(v, str) and v[:1] == "\x02":
         tag, _, x = v[1:].partition(":")
         if tag == "f":
@@ -227,12 +247,32 @@ def fsum(c):
     return sum(vals)
 
 
+def fsum2(c):
+    """reads only the first two members of the container"""
+    if isinstance(c, (dict, FUserDict)):
+        vals = list(c.values())[:2]
+    elif isinstance(c, list):
+        vals = list(c)[:2]
+    elif type(c).__name__.startswith("FSlots_"):
+        vals = [getattr(c, k) for k in type(c).__slots__ if hasattr(c, k)][:2]
+    else:
+        vals = list(vars(c).values())[:2]
+    if len(vals) < 2:
+        raise TypeError("sum2 needs two members")
+    for v in vals:
+        if not isinstance(v, int):
+            raise TypeError("sum over non-integer member")
+    return sum(vals)
+
+
 def build(spec):
     """spec: int | "FunSum" | {"kind": dict|list|obj, "items": [[key, spec], ...]}"""
     if isinstance(spec, int):
         return spec
     if spec == "FunSum":
         return fsum
+    if spec == "FunSum2":
+        return fsum2
     if isinstance(spec, str):
         return dv(spec)
     kind = spec["kind"]
@@ -285,6 +325,8 @@ def flatten(obj, pre, out):
                 flatten(getattr(obj, k), pre + [k], out)
     elif obj is fsum:
         out.append([pre, "FunSum"])
+    elif obj is fsum2:
+        out.append([pre, "FunSum2"])
     else:
         out.append([pre, obj if isinstance(obj, int) and not isinstance(obj, bool) else repr(obj)])
 
@@ -380,10 +422,13 @@ def ref_path(r):
     return [r._key] + steps[::-1]
 
 
+STRIDS = {}      # actual string task id (the printed form of a reference, made unique by trailing blanks) -> name in the case
+
+
 def tid_path(tid):
     if isinstance(tid, BaseRef):
         return ref_path(tid)
-    return ["$task", tid]
+    return ["$task", STRIDS.get(tid, tid)]
 
 
 def mkexpr(roots, e):
@@ -395,7 +440,7 @@ def mkexpr(roots, e):
     if k == "bin":
         a, b = mkexpr(roots, e[2]), mkexpr(roots, e[3])
         return a + b if e[1] == "+" else a - b if e[1] == "-" else a * b
-    if k == "callsum":
+    if k in ("callsum", "callsum2"):
         return mkref(roots, e[1])(mkref(roots, e[2]))
     if k == "proj":
         inner = mkexpr(roots, e[2])
@@ -639,6 +684,7 @@ def gen_fun_check(m, roots, roots_data, arg_paths, values, obs):
     if not all(isinstance(t, ExprTask) for t in m.tasks.values()):
         return {"skipped": "non-expression tasks", "err": None}
     data2 = copy.deepcopy(roots_data)
+    data0 = copy.deepcopy(roots_data)          # to put the real containers back before the manager route on m itself
     m2 = xd.Manager()
     roots2 = make_roots(m2, data2)
     m2.load(m.dump())
@@ -683,6 +729,36 @@ def gen_fun_check(m, roots, roots_data, arg_paths, values, obs):
         flatten(data2[label], [label], sb)
     if res["err"] is not None:
         return res          # both routes are compared only when the generated function ran to the end
+    # the manager route on THIS manager (not a freshly loaded one: hidden state of the manager under test counts): the real
+    # containers are put back to their contents before the call, then the values are assigned through m
+    if not res.get("twin_err"):
+        def put_back(saved):
+            for label, root in roots_data.items():
+                snap = copy.deepcopy(saved[label])
+                if isinstance(root, dict):
+                    dict.clear(root)
+                    for k, v in snap.items():
+                        dict.__setitem__(root, k, v)
+                else:
+                    root.__dict__.clear()
+                    root.__dict__.update(vars(snap))
+        data_after_g = copy.deepcopy(roots_data)
+        put_back(data0)
+        keep = list(TRACE)
+        for p, v in zip(arg_paths, values):
+            try:
+                m.set_value(mkref(roots, p), dv(v))
+            except Exception as e:
+                res["own_err"] = exc_name(e)
+                break
+        del TRACE[:]
+        TRACE.extend(keep)
+        sc = []
+        for label in roots_data:
+            flatten(roots_data[label], [label], sc)
+        if sc != sa and "own_err" not in res:
+            res["own_differs"] = [[x, y] for x, y in zip(sa, sc) if x != y][:4]
+        put_back(data_after_g)       # the operation under observation is the call of the generated function: its result stays
     res["equal"] = (sa == sb)
     if sa != sb:
         import re
@@ -908,7 +984,7 @@ def run_case(case, opts):
     SELFDEP.clear()
     m = xd.Manager()
     roots, roots_data = {}, {}
-    ROOTKIND.clear(); ENVS.clear(); del CLONES[:]; FUNWRITES.clear()
+    ROOTKIND.clear(); ENVS.clear(); del CLONES[:]; FUNWRITES.clear(); STRIDS.clear()
     for label, spec in case["store"]:
         data = build(spec)
         roots_data[label] = data
@@ -963,6 +1039,12 @@ def run_case(case, opts):
             elif kind == "regfun":
                 action = WriteAction([(mkref(roots, p), mkexpr(roots, e)) for p, e in op[4]])
                 fid = op[1] if isinstance(op[1], str) else mkref(roots, op[1]["ref"])
+                if isinstance(fid, str) and fid.startswith("str") and ":" in fid:
+                    text = str(mkref(roots, json.loads(fid.split(":", 1)[1])))
+                    while text in STRIDS and STRIDS[text] != fid:
+                        text += " "            # two string ids for the same location: kept distinct by trailing blanks
+                    STRIDS[text] = fid
+                    fid = text
                 FUNWRITES[json.dumps(tid_path(fid))] = list(action.writes)
                 if (len(op[4]) + len(str(op[1]))) % 2:
                     action = action.update       # a bound method; its instance is referenced by the task only
